@@ -1035,6 +1035,9 @@ func runE2E(cfg vhlib.Config, sum *vhlib.Summary, r *vhlib.Rng) {
 	}
 	sum.Count("e2e/baseline_ok")
 
+	// ---- the readers of the unchecksummed files on the store's real files ----
+	runDecoders(cfg, sum, r.Fork(), lanes[0].pristine, files)
+
 	// ---- real column files vs the model (layout + reads) ----
 	csgFiles := 0
 	for _, f := range files {
@@ -1519,6 +1522,9 @@ func main() {
 		switch os.Args[2] {
 		case "build":
 			workerBuild(os.Args[3], len(os.Args) > 4 && os.Args[4] == "1")
+		case "decode":
+			from, _ := strconv.Atoi(os.Args[6])
+			workerDecode(os.Args[3], os.Args[4], os.Args[5], from)
 		case "query":
 			if len(os.Args) > 6 {
 				if n, err := strconv.Atoi(os.Args[6]); err == nil && n > 0 {
@@ -1541,4 +1547,262 @@ func main() {
 	runDirect(cfg, sum, r.Fork())
 	runE2E(cfg, sum, r.Fork())
 	sum.Write(cfg.Out)
+}
+
+// ---------------------------------------------------------------------------
+// (c) decoders of the unchecksummed files: real readers vs the model MetaDecoders.v
+// ---------------------------------------------------------------------------
+
+func decMutations(r *vhlib.Rng, b []byte, thorough bool, nflips int) [][]byte {
+	out := [][]byte{append([]byte{}, b...)}
+	step := 1
+	if !thorough && len(b) > 120 {
+		step = 3
+	}
+	for k := 0; k < len(b); k++ {
+		if k%step == 0 || k < 40 {
+			out = append(out, append([]byte{}, b[:k]...))
+		}
+	}
+	flip := func(i, v int) {
+		if i < len(b) && int(b[i]) != v&0xFF {
+			m := append([]byte{}, b...)
+			m[i] = byte(v)
+			out = append(out, m)
+		}
+	}
+	if thorough {
+		for i := range b {
+			flip(i, int(b[i])^0xFF)
+			flip(i, int(b[i])^0x01)
+			flip(i, 0)
+		}
+		return out
+	}
+	for i := 0; i < 32 && i < len(b); i++ {
+		flip(i, int(b[i])^0xFF)
+	}
+	for j := 0; j < nflips && len(b) > 0; j++ {
+		i := r.Intn(len(b))
+		v := r.Intn(256)
+		if r.Chance(50) {
+			v = int(b[i]) ^ (1 << uint(r.Intn(8)))
+		}
+		flip(i, v)
+	}
+	return out
+}
+
+func coqBytesList(l [][]byte) string {
+	items := make([]string, len(l))
+	for i, x := range l {
+		items[i] = vhlib.CoqBytes(x)
+	}
+	return vhlib.CoqList(items)
+}
+
+func runDecoders(cfg vhlib.Config, sum *vhlib.Summary, r *vhlib.Rng, pristine string, files []storeFile) {
+	dir := filepath.Join(cfg.Out, "decoders")
+	_ = os.MkdirAll(dir, 0o755)
+	var cases []decCase
+	add := func(dec string, data []byte, nflips int) {
+		for _, m := range decMutations(r, data, cfg.Thorough(), nflips) {
+			cases = append(cases, decCase{Dec: dec, Data: m})
+		}
+		sum.Count("decoders/source/" + dec)
+	}
+	for _, f := range files {
+		b, err := os.ReadFile(filepath.Join(pristine, f.Rel))
+		if err != nil {
+			continue
+		}
+		switch f.Kind {
+		case "bsu":
+			add("bsu", b, 40)
+		case "mbsu":
+			add("mbsu", b, 30)
+		case "mnm":
+			add("mnm", b, 30)
+		case "cmi":
+			if f.Seg != "A" && !cfg.Thorough() {
+				continue
+			}
+			// records: size LE32 | blkNum LE16 | payload (type byte first); size counts blkNum + payload
+			for p, n := 0, 0; p+6 <= len(b); n++ {
+				size := int(utils.BytesToUint32LittleEndian(b[p : p+4]))
+				if size < 3 || p+4+size > len(b) {
+					break
+				}
+				if n == 0 || cfg.Thorough() { // quick: the first record of every column
+					add("cmi", b[p+6:p+4+size], 12)
+				}
+				p += 4 + size
+			}
+		}
+	}
+	// a few hand-made inputs: several names, empty file, unknown range type
+	add("mnm", []byte{3, 0, 'c', 'p', 'u', 0, 0, 5, 0, 'm', 'e', 'm', '.', 'x'}, 10)
+	add("cmi", []byte{2, 1, 0, 'n', 9, 1, 2, 3}, 0)
+	inPath := filepath.Join(dir, "cases.json")
+	outPath := filepath.Join(dir, "out.jsonl")
+	cb, _ := json.Marshal(cases)
+	_ = os.WriteFile(inPath, cb, 0o644)
+	_ = os.Remove(outPath)
+	outs := make([]*decOut, len(cases))
+	from := 0
+	for restarts := 0; from < len(cases) && restarts < 400; restarts++ {
+		ctx, cancel := context.WithTimeout(context.Background(), 600*time.Second)
+		cmd := exec.CommandContext(ctx, "/bin/sh", "-c", fmt.Sprintf("ulimit -v %d; exec %q worker decode %q %q %q %d", workerVmKB, os.Args[0], dir, inPath, outPath, from))
+		var stderr bytes.Buffer
+		cmd.Stderr = &stderr
+		_ = cmd.Run()
+		cancel()
+		done := 0
+		if ob, err := os.ReadFile(outPath); err == nil {
+			for _, ln := range strings.Split(string(ob), "\n") {
+				var o decOut
+				if ln != "" && json.Unmarshal([]byte(ln), &o) == nil && o.I < len(cases) {
+					oo := o
+					outs[o.I] = &oo
+					if o.I+1 > done {
+						done = o.I + 1
+					}
+				}
+			}
+		}
+		if done < from {
+			done = from
+		}
+		if done < len(cases) {
+			// the process died on case [done]
+			msg := ""
+			for _, ln := range strings.Split(stderr.String(), "\n") {
+				if strings.HasPrefix(ln, "fatal error:") || strings.Contains(ln, "out of memory") || strings.HasPrefix(ln, "panic:") {
+					msg = ln
+					break
+				}
+			}
+			outs[done] = &decOut{I: done, Code: 3, Msg: "process died: " + msg}
+			done++
+		}
+		from = done
+	}
+	// oracle + Coq observations
+	type shard struct{ items []string }
+	obs := map[string][]string{}
+	for i, c := range cases {
+		o := outs[i]
+		if o == nil {
+			sum.HarnessError(fmt.Sprintf("decoders: no result for case %d", i))
+			return
+		}
+		dec := c.Dec
+		if dec == "cmi" {
+			if len(c.Data) == 0 {
+				continue // getCmi is never called with an empty record by readCmis? it is (size 2): outside the model, skip
+			}
+			switch c.Data[0] {
+			case 1:
+				dec = "bloom"
+			case 2:
+				dec = "ri"
+			default:
+				dec = "cmi_other"
+			}
+		}
+		sum.Eval(fmt.Sprintf("dec/%s/%x", dec, c.Data), true)
+		sum.Count("decoders/" + dec)
+		sum.Count(fmt.Sprintf("decoders/result/%d", o.Code))
+		if o.Code >= 2 {
+			cls := "decoder_panic_on_damaged_file"
+			if allocRx.MatchString(o.Msg) {
+				if m := allocRx.FindStringSubmatch(o.Msg); m != nil {
+					if n, _ := strconv.ParseUint(m[1], 10, 64); n <= 5<<30 {
+						cls = "" // refused by the worker's address-space limit only
+					}
+				}
+			}
+			switch {
+			case cls == "":
+			case dec == "bsu":
+				cls = "bsu_truncated_block_summary_panic"
+			case dec == "mbsu":
+				cls = "metrics_mbsu_truncated_panic"
+			case dec == "mnm":
+				cls = "metrics_mnm_length_panic"
+			case dec == "ri":
+				cls = "cmi_range_index_length_panic"
+			case dec == "bloom" && strings.Contains(o.Msg, "divide by zero"):
+				cls = "cmi_bloom_zero_size_divide_panic"
+			case dec == "bloom" && o.Code == 3:
+				cls = "bloom_cmi_length_oom"
+			}
+			if cls != "" {
+				sum.Fail(cls, fmt.Sprintf("reader of a %s given %d bytes %v: %s", dec, len(c.Data), c.Data, o.Msg),
+					map[string]interface{}{"stream": "decoders", "decoder": c.Dec, "data": c.Data, "result": o})
+			} else {
+				sum.Count("decoders/alloc_le_4gib_refused_by_worker_vm_limit")
+				continue
+			}
+		}
+		code := o.Code
+		switch dec {
+		case "mnm":
+			obs[dec] = append(obs[dec], fmt.Sprintf("(%s, (%d, %s))", vhlib.CoqBytes(c.Data), code, coqBytesList(o.Names)))
+		case "mbsu":
+			var l []string
+			for _, m := range o.Mbs {
+				l = append(l, fmt.Sprintf("(%d, %d, %d)", m[0], m[1], m[2]))
+			}
+			obs[dec] = append(obs[dec], fmt.Sprintf("(%s, (%d, %s))", vhlib.CoqBytes(c.Data), code, vhlib.CoqList(l)))
+		case "bsu":
+			var l, bl []string
+			for _, m := range o.Sums {
+				l = append(l, fmt.Sprintf("(%d, %d, %d)", m[0], m[1], m[2]))
+			}
+			for _, b := range o.Blocks {
+				var cs []string
+				for _, cc := range b.Cols {
+					cs = append(cs, fmt.Sprintf("(%s, %d, %d)", vhlib.CoqBytes(cc.Name), cc.Off, cc.Len))
+				}
+				bl = append(bl, fmt.Sprintf("(%d, %s)", b.Num, vhlib.CoqList(cs)))
+			}
+			obs[dec] = append(obs[dec], fmt.Sprintf("(%s, (%d, (%s, %s)))", vhlib.CoqBytes(c.Data), code, vhlib.CoqList(l), vhlib.CoqList(bl)))
+		case "ri":
+			var l []string
+			for _, e := range o.Ranges {
+				if e.Nil {
+					l = append(l, fmt.Sprintf("(%s, None)", vhlib.CoqBytes(e.Key)))
+				} else {
+					l = append(l, fmt.Sprintf("(%s, Some (%d, %d, %d))", vhlib.CoqBytes(e.Key), e.Ty, e.Mn, e.Mx))
+				}
+			}
+			obs[dec] = append(obs[dec], fmt.Sprintf("(%s, (%d, %s))", vhlib.CoqBytes(c.Data[1:]), code, vhlib.CoqList(l)))
+		case "bloom":
+			h := [3]uint64{}
+			if o.Bloom != nil {
+				h = *o.Bloom
+			}
+			obs[dec] = append(obs[dec], fmt.Sprintf("(%s, (%d, (%d, %d, %d)))", vhlib.CoqBytes(c.Data[1:]), code, h[0], h[1], h[2]))
+		}
+	}
+	typ := map[string]string{
+		"mnm":   "list (list N * (N * list (list N)))",
+		"mbsu":  "list (list N * (N * list (N * N * N)))",
+		"bsu":   "list (list N * (N * (list (N * N * N) * list (N * list (list N * N * N)))))",
+		"ri":    "list (list N * (N * list (list N * option (N * N * N))))",
+		"bloom": "list (list N * (N * (N * N * N)))",
+	}
+	for _, dec := range []string{"mnm", "mbsu", "bsu", "ri", "bloom"} {
+		l := obs[dec]
+		const per = 120
+		for s := 0; s*per < len(l); s++ {
+			hi := (s + 1) * per
+			if hi > len(l) {
+				hi = len(l)
+			}
+			defs := "Definition cases : " + typ[dec] + " := " + vhlib.CoqListNL(l[s*per:hi]) + ".\n"
+			sum.WriteCaseFile(cfg.Out, fmt.Sprintf("cases_dec_%s_%d", dec, s), "From SigM Require Import Base MetaDecoders MetaDecodersCheck.\n", defs, "check_"+dec+" cases", hi-s*per)
+		}
+	}
 }
